@@ -31,7 +31,7 @@ def run(ctx):
     ctx.guarded("R18.2", "branch", lambda: branch(ctx))
     ctx.guarded("R18.3", "no-read", lambda: no_read(ctx))
     ctx.guarded("R18.4", "register", lambda: register(ctx))
-    ctx.rule("R18.6", "nothing a client does can make requests() fail before it looks at the kill switch: error exits are environment-only, write() is guarded and an I/O failure closes (C09 R09.1/R09.2/R09.7); the map never holds more than MAX_CONNECTIONS entries, so every descriptor fits in the batch (C10 R10.1)")
+    ctx.rule("R18.6", "nothing a client does can make requests() fail before it looks at the kill switch: error exits are environment-only (the Overflow exit needs 2^32 unanswered requests), write() is guarded and an I/O failure closes (C09 R09.1/R09.2/R09.7/R09.11); the map never holds more than MAX_CONNECTIONS entries, so every descriptor fits in the batch (C10 R10.1)")
     from .c06 import _Remap
     from . import c09, c10
     def shared():
@@ -40,6 +40,8 @@ def run(ctx):
         c09.exits(r, okw)
         c09.failure_closes(r, "R18.6")
         c10.cap(r)
+        # the one client-dependent error exit, Overflow of the in-flight counter, is out of reach only while the counter is wide
+        c09.counter_width(r, "R18.6")
     ctx.guarded("R18.6", "shared", shared)
 
 
